@@ -42,6 +42,15 @@ UNITS = {
             'V-ordermap: requires K::obeys_eq_spec() — the key type\'s == is a function of its operands (true of css::Value::eq, which is itself outside this unit)',
             'V-ordermap: listed rewrite — the for loop\'s iterator is named (`for (k, v) in it: &self.0`) so that the invariant can mention its position',
         ]),
+    'V-opt': dict(
+        tmpl='opt.rs.tmpl', props=['C22'],
+        functions=['Opt::collect_pos', 'Opt::collect_neg'],
+        assumptions=[
+            'Verus/Z3 trusted; vstd specs of Vec::{new,push,is_empty} and of iterating a Vec by value',
+            'V-opt: listed rewrite of the signature — the parameter type `impl Iterator<Item = Opt<T>>` is replaced by `Vec<Opt<T>>` (Verus has no loop specification for an arbitrary iterator); the body is /repo\'s text; that the iterators the callers pass yield a finite sequence of items is not checked here',
+            'V-opt: listed rewrite — `pub(crate) enum Opt` is declared `pub enum Opt` (Verus rejects its generated variant accessors on a crate-visible enum); visibility only',
+            'V-opt: listed rewrite — the for loop\'s iterator is named (`for p in it: iter`) and one proof line about Seq::take is inserted in front of the `match` (ghost code only)',
+        ]),
     'V-cssbuf': dict(
         tmpl='cssbuf.rs.tmpl', props=['C07', 'C01'],
         functions=['CssBuf::new', 'CssBuf::format', 'CssBuf::start_block', 'CssBuf::end_block', 'CssBuf::pop_nl', 'CssBuf::add_str',
@@ -71,7 +80,7 @@ def units_for(pid):
 
 def _enclosing_fn(lines, lineno):
     for i in range(min(lineno, len(lines)) - 1, -1, -1):
-        m = re.match(r'^\s*(?:pub\s+)?(?:proof\s+|exec\s+)?fn\s+(\w+)', lines[i])
+        m = re.match(r'^\s*(?:pub(?:\([a-z:]+\))?\s+)?(?:proof\s+|exec\s+)?fn\s+(\w+)', lines[i])
         if m:
             return m.group(1)
     return '?'
